@@ -10,6 +10,7 @@ import (
 	"os"
 	"sort"
 	"strings"
+	"time"
 
 	"github.com/diskfs/go-diskfs/filesystem"
 	"github.com/diskfs/go-diskfs/filesystem/ext4"
@@ -451,6 +452,9 @@ func indexByte(s string, c byte) int {
 }
 
 func C18(r *ev.Run) {
+	if !r.Quick() && os.Getenv("VERIF_BUDGET_S") == "" {
+		r.Deadline = time.Now().Add(55 * time.Minute) // about a million cases, many of which kill their worker
+	}
 	st, n := runCorrupt(r, "c18", "c18")
 	r.Set("evaluations", st.done)
 	r.Set("distinct_nontrivial", st.nontrivial)
